@@ -50,7 +50,31 @@ func (c17) Gen(tier string, seed int64, emit func([]Ev)) {
 		n = 12000
 	}
 	for i := 0; i < n; i++ {
-		emit(c17History(r))
+		switch {
+		case i%5 == 3: // two or three accumulators side by side, their calls interleaved
+			hs := [][]Ev{c17History(r), c17History(r)}
+			if r.Intn(2) == 0 {
+				hs = append(hs, c17History(r))
+			}
+			emit(c17Interleave(r, hs...))
+		case i%25 == 4:
+			// one accumulator starts a unit and is reset; then another starts its first unit; then the first is
+			// written again while the second goes on
+			pred := Ev{"done": 0, "fail": 0}
+			w := func(acc, cc int, pusi bool) Ev {
+				p := mkPkt(r, 0x100+acc, cc, pusi, true, []int{-1, 150, 100}[r.Intn(3)])
+				return Ev{"op": "write", "pkt": B(p[:]), "pred": pred, "acc": acc}
+			}
+			h := []Ev{w(0, 0, true)}
+			for k := r.Intn(3); k > 0; k-- {
+				h = append(h, w(0, 1, false))
+			}
+			h = append(h, Ev{"op": "reset", "pred": pred, "acc": 0}, w(1, 0, true), w(1, 1, false), w(0, 2, true), w(0, 3, false), w(1, 2, false),
+				Ev{"op": "reset", "pred": pred, "acc": 1}, w(0, 4, false), w(2, 0, true), w(1, 3, true), w(2, 1, false))
+			emit(h)
+		default:
+			emit(c17History(r))
+		}
 	}
 	// a very large unit (several hundred full packets, more than 64 KiB of payload), then Reset and the usual
 	// questions: a reset accumulator behaves like a new one however much it held before
@@ -123,37 +147,59 @@ func (c17) GenRows(rows []Ev, tier string, seed int64, emit func([]Ev)) {
 	}
 }
 
-func (c17) Exec(h []Ev) []Ev {
-	if len(h) == 0 {
-		return h
-	}
-	pr := asMap(h[0]["pred"])
+// c17Acc: one real accumulator of a history with what it handed out so far.
+type c17Acc struct {
+	acc   packet.Accumulator
+	snaps []c17Snap
+	// what Bytes() / Packets() returned after the last call on this accumulator (calls on other accumulators must not change it)
+	lastB  string
+	lastPk []packet.Packet
+}
+
+// lists and byte slices handed out earlier, with the content they had when handed out:
+// later accumulator calls must leave them alone ("an independent copy")
+type c17Snap struct {
+	pk   []*packet.Packet
+	want []packet.Packet
+	b    []byte
+	wb   string
+}
+
+func c17New(pr map[string]interface{}) *c17Acc {
 	done, fail := GI(pr["done"]), GI(pr["fail"])
-	acc := packet.NewAccumulator(func(b []byte) (bool, error) {
+	return &c17Acc{acc: packet.NewAccumulator(func(b []byte) (bool, error) {
 		if fail > 0 && len(b) >= fail {
 			// the error has priority, also when the predicate says "complete" in the same breath
 			return done > 0 && len(b) >= done, errPred
 		}
 		return done > 0 && len(b) >= done, nil
-	})
-	written := make([][]byte, len(h)) // original bytes of each written packet, by step
-	// lists and byte slices handed out earlier, with the content they had when handed out:
-	// later accumulator calls must leave them alone ("an independent copy")
-	type snap struct {
-		pk   []*packet.Packet
-		want []packet.Packet
-		b    []byte
-		wb   string
+	})}
+}
+
+func (c17) Exec(h []Ev) []Ev {
+	if len(h) == 0 {
+		return h
 	}
-	var snaps []snap
+	// several accumulators may live side by side (a demultiplexer keeps one per PID): the event names the one it calls
+	accs := map[int]*c17Acc{}
+	written := make([][]byte, len(h)) // original bytes of each written packet, by step
+	writtenTo := make([]int, len(h))  // ... and the accumulator it was written to
 	dead := false
 	for i, e := range h {
+		ai := GI0(e["acc"])
+		e["acc"] = ai
 		if dead {
 			e["panic"] = "skipped-after-panic"
 			continue
 		}
+		if accs[ai] == nil {
+			accs[ai] = c17New(asMap(e["pred"]))
+		}
+		cur := accs[ai]
+		acc := cur.acc
 		e["input_same"] = true
 		e["snaps_same"] = true
+		e["others_same"] = true
 		e["panic"] = guard(func() {
 			switch GS(e["op"]) {
 			case "reset":
@@ -163,7 +209,7 @@ func (c17) Exec(h []Ev) []Ev {
 				var p packet.Packet
 				copy(p[:], GB(e["pkt"]))
 				orig := p
-				written[i] = append([]byte(nil), p[:]...)
+				written[i], writtenTo[i] = append([]byte(nil), p[:]...), ai
 				_, err := acc.WritePacket(&p)
 				e["input_same"] = p == orig
 				switch err {
@@ -186,19 +232,40 @@ func (c17) Exec(h []Ev) []Ev {
 				}
 			}
 			same := true
-			for _, sn := range snaps {
-				if string(sn.b) != sn.wb {
-					same = false
-				}
-				for k, q := range sn.pk {
-					if q == nil || *q != sn.want[k] {
+			for _, x := range accs {
+				for _, sn := range x.snaps {
+					if string(sn.b) != sn.wb {
 						same = false
+					}
+					for k, q := range sn.pk {
+						if q == nil || *q != sn.want[k] {
+							same = false
+						}
 					}
 				}
 			}
 			e["snaps_same"] = same
+			// the other accumulators read as they did after their own last call
+			for k, x := range accs {
+				if k == ai {
+					continue
+				}
+				if string(x.acc.Bytes()) != x.lastB {
+					e["others_same"] = false
+				}
+				pk := x.acc.Packets()
+				if len(pk) != len(x.lastPk) {
+					e["others_same"] = false
+				} else {
+					for j, q := range pk {
+						if q == nil || *q != x.lastPk[j] {
+							e["others_same"] = false
+						}
+					}
+				}
+			}
 			{
-				sn := snap{pk: acc.Packets(), b: acc.Bytes()}
+				sn := c17Snap{pk: acc.Packets(), b: acc.Bytes()}
 				sn.wb = string(sn.b)
 				for _, q := range sn.pk {
 					if q != nil {
@@ -207,7 +274,7 @@ func (c17) Exec(h []Ev) []Ev {
 						sn.want = append(sn.want, packet.Packet{})
 					}
 				}
-				snaps = append(snaps, sn)
+				cur.snaps = append(cur.snaps, sn)
 			}
 			// copy independence: scribble over what Bytes()/Packets() return, then read again
 			b1 := acc.Bytes()
@@ -223,15 +290,20 @@ func (c17) Exec(h []Ev) []Ev {
 				p1[k] = nil
 			}
 			e["bytes"] = B(acc.Bytes())
+			cur.lastB = string(acc.Bytes())
+			cur.lastPk = nil
 			pk := []int{}
 			for _, q := range acc.Packets() {
 				idx := -1
 				if q != nil {
+					cur.lastPk = append(cur.lastPk, *q)
 					for s := 0; s <= i; s++ {
-						if written[s] != nil && string(written[s]) == string(q[:]) {
+						if written[s] != nil && writtenTo[s] == ai && string(written[s]) == string(q[:]) {
 							idx = s
 						}
 					}
+				} else {
+					cur.lastPk = append(cur.lastPk, packet.Packet{})
 				}
 				pk = append(pk, idx)
 			}
@@ -242,21 +314,44 @@ func (c17) Exec(h []Ev) []Ev {
 		}
 	}
 	// resolve done-or-refused: "done" if the accumulator was not complete before this call
-	complete := false
+	complete := map[int]bool{}
 	for _, e := range h {
+		ai := GI0(e["acc"])
 		switch GS(e["err"]) {
 		case "reset":
-			complete = false
+			complete[ai] = false
 		case "done-or-refused":
-			if complete {
+			if complete[ai] {
 				e["err"] = "refused-done"
 			} else {
 				e["err"] = "done"
-				complete = true
+				complete[ai] = true
 			}
 		}
 	}
 	return h
+}
+
+// c17Interleave merges histories of several accumulators, keeping each one's order.
+func c17Interleave(r *rand.Rand, hs ...[]Ev) []Ev {
+	var out []Ev
+	pos := make([]int, len(hs))
+	for {
+		var live []int
+		for k := range hs {
+			if pos[k] < len(hs[k]) {
+				live = append(live, k)
+			}
+		}
+		if len(live) == 0 {
+			return out
+		}
+		k := live[r.Intn(len(live))]
+		e := hs[k][pos[k]]
+		e["acc"] = k
+		out = append(out, e)
+		pos[k]++
+	}
 }
 
 func (c17) Class(e Ev) string {
